@@ -41,6 +41,21 @@ PANIC_TABLE = {
 }
 
 
+def discr_poss(conds, X):
+    """what the decisions of a path leave of the discriminant of the two-variant value X"""
+    poss = {0, 1}
+    d = ("discr", X)
+    for c in conds:
+        x, v = c[0], c[1]
+        if x == d:
+            poss &= {v} if isinstance(v, int) else ({0, 1} - set(v[1]))
+        elif x[0] == "bin" and x[1] in ("Eq", "Ne") and d in (x[2], x[3]) and isinstance(v, int):
+            o = x[3] if x[2] == d else x[2]
+            if o[0] == "int":
+                poss = poss & {o[1]} if (x[1] == "Eq") == bool(v) else poss - {o[1]}
+    return poss
+
+
 def run(ctx):
     ctx.explanation = __doc__
     f = ctx.facts("A")
@@ -93,6 +108,7 @@ def run(ctx):
     ctx.check(missing_at >= set(range(6)), "pull:missing-field",
               "not every one of the six field pulls reports MissingField when the input has run out (reported for pulls %s)" % sorted(missing_at), where,
               sample={"pull": "parts.next().ok_or(MissingField)"})
+    inline = g.inline_stages(FROM_FEN)
     for p in oks:
         evs = [e for e in p.events if e.kind == "call" and e.depth == 0]
         split = [e for e in evs if e.name == "str::split"]
@@ -102,7 +118,7 @@ def run(ctx):
         for e in p.events:
             if is_pull(e):
                 seq.append(("pull", e))
-            elif e.kind == "call" and e.depth == 0 and g.is_stage(e.name):
+            elif e.kind == "call" and e.depth == 0 and (g.is_stage(e.name) or (e.fn, e.bb) in inline):
                 seq.append(("stage", e))
         # each stage's text argument is the payload of the pull immediately before it
         nst = 0
@@ -115,9 +131,21 @@ def run(ctx):
                 npull += 1
             else:
                 nst += 1
-                arg = e.args[1]
-                if last_pull is None or not sym.contains(arg, lambda x: x == last_pull.ret):
+                if last_pull is None or not any(sym.contains(arg, lambda x: x == last_pull.ret) for arg in e.args):
                     okorder = False
+                if (e.fn, e.bb) in inline:
+                    # a field read in place: the whole field goes to a core parser that rejects the empty string, and Ok needs its Ok
+                    whole = e.args[0]
+                    while whole[0] in ("ref", "deref"):
+                        whole = whole[1]
+                    okin = last_pull is not None and whole == ("field", ("downcast", last_pull.ret, "Some"), "0")
+                    poss = {0, 1}
+                    for c in p.conds:
+                        if c[0] == ("discr", e.ret):
+                            poss &= {c[1]} if isinstance(c[1], int) else ({0, 1} - set(c[1][1]))
+                    ctx.check(okin and poss == {0}, "fields:read-in-place",
+                              "a field read in from_fen's own body is not handed whole to str::parse with Ok required", where,
+                              sample={"field": inline[(e.fn, e.bb)]})
                 last_pull = None
         # the pull after the sixth stage is the end-of-input test below
         ctx.check(nst == 6 and okorder and npull in (6, 7), "fields:six-pulls-feed-six-stages",
@@ -142,10 +170,14 @@ def run(ctx):
         ps = sym.SymExec(f, sb, peel=True, count_next=True, max_paths=200000).run()
         sname = st.rsplit("::", 1)[-1]
         ctx.saw("%s: %d paths (peeled)" % (sname, len(ps)))
-        sparam = ("ptr", ("P", "s"), (), False)
+        tparams = [sb.local_name(i) for i in range(1, sb.argc + 1) if sb.locals[i]["ty"] == "&str"]
+        if len(tparams) != 1:
+            ctx.fail("%s:text-parameter" % sname, "stage %s does not take exactly one &str" % sname, loc(sb))
+            continue
+        sparam = ("ptr", ("P", tparams[0]), (), False)
         nok = 0
         for p in ps:
-            if not (p.end == "return" and p.ret[0] == "agg" and p.ret[2] == "Ok"):
+            if not g.path_succeeds(st, p)[0]:
                 continue
             nok += 1
             witness = None
@@ -174,13 +206,19 @@ def run(ctx):
                 subs = sym.subterms(e, lambda y: y[0] == "call" and y[1] in stages and y[1] != st)
                 if subs and isinstance(v, int) and v == 0 and any(sym.contains(a_, lambda z: z == sparam) for a_ in subs[0][2]):
                     witness = "delegated a piece of the field to %s" % subs[0][1].rsplit("::", 1)[-1]
+            if witness is None:
+                # the same delegation, however the result's variant was tested (`match`, `== 0`, `.ok()?`, ...)
+                pt = ("call", "str::parse", (sparam,))
+                for X, good in ((pt, 0), (("call", "core::result::Result<T, E>::ok", (pt,)), 1)):
+                    if discr_poss(p.conds, X) == {good}:
+                        witness = "delegated to str::parse (rejects empty input)"
             ctx.check(witness is not None, "%s:non-empty" % sname,
                       "%s can return Ok on a path with no evidence that its field is non-empty (an empty field would be accepted)" % sname, loc(sb),
                       sample={"stage": sname, "witness": witness} if nok == 1 else None)
         ctx.floor("%s Ok paths" % sname, nok, 1)
         if st == placement_stage:
             ctx.rule("count-exactness")
-            okp = [p for p in ps if p.end == "return" and p.ret[0] == "agg" and p.ret[2] == "Ok"]
+            okp = [p for p in ps if g.path_succeeds(st, p)[0]]
 
             def guards8(path):
                 out = []
@@ -195,7 +233,7 @@ def run(ctx):
                 if s2 == st or not any(e_.kind == "call" and e_.name == s2 for p_ in okp for e_ in p_.events):
                     continue
                 sp2 = sym.SymExec(f, f.need(s2), peel=True, count_next=True, max_paths=200000).run()
-                oks2 = [p_ for p_ in sp2 if p_.end == "return" and p_.ret[0] == "agg" and p_.ret[2] == "Ok"]
+                oks2 = [p_ for p_ in sp2 if g.path_succeeds(s2, p_)[0]]
                 if oks2:
                     sub_guards += min(len(guards8(p_)) for p_ in oks2)
             for p in okp:
